@@ -277,6 +277,30 @@ pub fn record_one(run: usize, p: &Problem, seed: u64) -> (Vec<Value>, usize, usi
             Err(e) => lines.push(json!({"ev": "Panic", "run": run, "kind": "frozen_after_build", "msg": crate::rec_ipm::panic_msg(e)})),
         }
     }
+    if run % 16 == 2 {
+        // the bound is process-wide: set here, read by a solver that is built on another thread
+        let mut pf = p.clone();
+        let (m, n) = (pf.m(), pf.n());
+        let mut rows: Vec<Vec<f64>> = vec![vec![0.0; n]; m + 1];
+        for j in 0..n { for k in pf.A.colptr[j]..pf.A.colptr[j + 1] { rows[pf.A.rowval[k]][j] = pf.A.nzval[k]; } }
+        pf.A = Csc::from_dense(&rows, m + 1, n);
+        pf.b.push(1e15);
+        pf.cones.push(ConeSpec::Nonneg(1));
+        clarabel::set_infinity(1e10);
+        let pf2 = pf.clone();
+        let r = std::thread::spawn(move || catch_unwind(AssertUnwindSafe(|| {
+            let (P, A) = (pf2.P.to_clarabel(), pf2.A.to_clarabel());
+            let mut s = DefaultSolver::new(&P, &pf2.q, &A, &pf2.b, &pf2.clarabel_cones(), pf2.settings());
+            let dropped = s.data.m + 1 == pf2.m();
+            s.solve();
+            (dropped, s.solution.s.last().copied().unwrap_or(f64::NAN))
+        }))).join();
+        clarabel::default_infinity();
+        match r {
+            Ok(Ok((dropped, slack))) => lines.push(json!({"ev": "Shared", "run": run, "kind": "bound_visible_across_threads", "dropped": dropped, "slack_is_bound": slack == 1e10, "slack": slack})),
+            _ => lines.push(json!({"ev": "Panic", "run": run, "kind": "bound_visible_across_threads", "msg": "panic in the building thread"})),
+        }
+    }
     (lines, compared, skipped)
 }
 
